@@ -616,13 +616,13 @@ func (b *Builder) PatchConfig() ([]byte, error) {
 	if b.FileType == FILETYPE_WINDOWS_SERVICE_EXE {
 		if val, ok := b.config.Config["Service Name"].(string); ok {
 			if len(val) > 0 {
-				b.compilerOptions.Defines = append(b.compilerOptions.Defines, "SERVICE_NAME=\\\""+val+"\\\"")
+				b.compilerOptions.Defines = append(b.compilerOptions.Defines, shellQuoteStringDefine("SERVICE_NAME", val))
 				if !b.silent {
 					b.SendConsoleMessage("Info", "set service name to "+val)
 				}
 			} else {
 				val = common.RandomString(6)
-				b.compilerOptions.Defines = append(b.compilerOptions.Defines, "SERVICE_NAME=\\\""+val+"\\\"")
+				b.compilerOptions.Defines = append(b.compilerOptions.Defines, shellQuoteStringDefine("SERVICE_NAME", val))
 				if !b.silent {
 					b.SendConsoleMessage("Info", "service name not specified... using random name")
 					b.SendConsoleMessage("Info", "set service name to "+val)
@@ -1064,6 +1064,13 @@ func (b *Builder) GetPayloadBytes() []byte {
 	}
 
 	return FileBuffer
+}
+
+// shellQuoteStringDefine returns NAME="value" (value as a C string literal) quoted so that
+// the "sh -c" command line passes it to the compiler as one literal argument.
+func shellQuoteStringDefine(name, value string) string {
+	var literal = strings.NewReplacer("\\", "\\\\", "\"", "\\\"").Replace(value)
+	return "'" + strings.ReplaceAll(name+"=\""+literal+"\"", "'", "'\\''") + "'"
 }
 
 func (b *Builder) Cmd(cmd string) bool {
